@@ -8,6 +8,7 @@ cache key with atomic steps of the code; `Model/SetCache.lean` (key-to-set map, 
 import QbiceVerif.Lemmas.CacheWide
 import QbiceVerif.Lemmas.CacheSet
 import QbiceVerif.Lemmas.CacheWideConc
+import QbiceVerif.Lemmas.CacheWideHandover
 import QbiceVerif.Lemmas.SetCacheConcMain
 import QbiceVerif.Lemmas.SetCacheConcOwner
 
@@ -87,6 +88,39 @@ theorem wide_refines_map_concurrent (db0 : Option Nat) (n : Nat) (sched : List W
     (hordered : WideCacheR.orderedSched (WideCacheR.init true db0 n) sched = true) :
     ∀ p ∈ outs, p.1 = p.2 :=
   WideCacheR.run_outputs (WideCacheR.inv_init db0 n) (WideCacheR.run_of_runAny h hordered)
+
+/-- The schedule hypothesis DISCHARGED for keys whose writers hand the key over: a writer opens its batch only
+while no other writer of the key has a batch open (`exclusiveSched`: every enabled `begin` fires in a state in
+which no task of this key's LTS has an open batch; the tasks of the per-key LTS are the writers and readers of that
+key).  Then the batches that write the key are created one after the other, each after the previous one was
+submitted, so every `cacheWrite` is `ordered` (`WideCacheR.exclusive_is_ordered`, proved) and the conclusion of
+`wide_refines_map_concurrent` holds for EVERY schedule `runAny` accepts – any number of readers, any interleaving of
+their fills with the writes and with commit / notify / evict.  This is the discipline of the engine for the keys
+of every wide column, DirtySetColumn included: a dirty mark (k,c) is put at most once per timestamp, by the one dirty
+walk that first reaches c, inside the publication block (batch) of the changed firewall / projection or of the input
+session, and deleted only by k's own publication block, which starts after that walk has returned (read from the
+engine sources, see the plugin's ASSUMPTIONS; not machine-checked against the engine). -/
+theorem wide_refines_map_concurrent_handover (db0 : Option Nat) (n : Nat) (sched : List WideCacheR.Ev)
+    (s : WideCacheR.State) (outs : List (Option Nat × Option Nat))
+    (h : WideCacheR.runAny (WideCacheR.init true db0 n) sched = some (s, outs))
+    (hexcl : WideCacheR.exclusiveSched (WideCacheR.init true db0 n) sched = true) :
+    ∀ p ∈ outs, p.1 = p.2 :=
+  wide_refines_map_concurrent db0 n sched s outs h
+    (WideCacheR.exclusive_is_ordered sched _ (WideCacheR.ex_init db0 n) hexcl)
+
+/-- non-vacuity: the dirty walk (task 1) puts the mark from its batch and submits; the owner of the edge (task 0) then
+opens its batch and deletes the mark, while task 2 is inside a fill that read the store before either write; both
+batches are committed and un-pinned, the entry evicted, and the readers see "absent". -/
+example :
+    WideCacheR.exclusiveSched (WideCacheR.init true none 3)
+      [.readGen 2, .probe 2, .sfEnter 2, .readDb 2, .begin 1, .put 1 (some 1), .cacheWrite 1, .submit 1,
+       .begin 0, .put 0 none, .fill 2, .cacheWrite 0, .sfLeave 2, .submit 0, .commit, .commit, .notify, .notify, .evict,
+       .readGen 2, .probe 2, .sfEnter 2, .readDb 2, .fill 2, .sfLeave 2, .readGen 2, .probe 2] = true ∧
+    (WideCacheR.runAny (WideCacheR.init true none 3)
+      [.readGen 2, .probe 2, .sfEnter 2, .readDb 2, .begin 1, .put 1 (some 1), .cacheWrite 1, .submit 1,
+       .begin 0, .put 0 none, .fill 2, .cacheWrite 0, .sfLeave 2, .submit 0, .commit, .commit, .notify, .notify, .evict,
+       .readGen 2, .probe 2, .sfEnter 2, .readDb 2, .fill 2, .sfLeave 2, .readGen 2, .probe 2]).map (·.2)
+      = some [(none, none)] := by decide
 
 /-- the same as an invariant of the states reachable by ordered schedules (`ReachOrdered`: every step that is a
 `cacheWrite` satisfies `ordered`) -/
